@@ -1,7 +1,8 @@
 import Dasp.Driver.Loop
+import Dasp.Driver.Buffered
 open Dasp.Driver
 
--- stub: replaced when property C14 is wired in
 def main : IO Unit := runDriver fun
+  | "buf" :: rest => bufLine rest
   | [] => ""
   | _ => "bad-op"
